@@ -443,6 +443,8 @@ class Pair:
         link = self.link
         if link.broken:
             return True
+        if hasattr(link, 'idle'):
+            return link.idle()
         if link.framing == 'bytes':
             return all((not p.buf) or p.task.done() for p in link.pipes.values())
         if hasattr(link, 'sockets'):
